@@ -1,3 +1,4 @@
+#include <sys/stat.h>
 // native implementation of the E2 harness API: values come from "name v v v ..." lines on stdin.
 #include "vs.h"
 #include <cstdio>
@@ -23,6 +24,12 @@ void vs_assume(int c) { if (!c) { printf("SKIP\n"); fflush(stdout); _Exit(0); } 
 void vs_assert(int c, const char* msg) { if (!c) { failed = 1; printf("FAIL %s\n", msg); fflush(stdout); } }
 uint32_t vs_choose(uint32_t n) { uint32_t v = (uint32_t) next("choose"); return n ? v % n : 0; }
 void vs_setenv(const char* n, const char* v) { setenv(n, v, 1); }
+void vs_file(const char* path, const char* data, unsigned long len) {
+   // create the directories of the path, then the file
+   char buf[512]; snprintf(buf, sizeof buf, "%s", path);
+   for (char* p = buf + 1; *p; ++p) if (*p == '/') { *p = 0; mkdir(buf, 0700); *p = '/'; }
+   FILE* f = fopen(path, "wb"); if (f) { fwrite(data, 1, len, f); fclose(f); }
+}
 void vs_note(const char* w, uint64_t v) { printf("NOTE %s %llu\n", w, (unsigned long long) v); }
 }
 int main(int argc, char** argv) {
